@@ -78,6 +78,9 @@ func (x *world) syncPoint(label string) bool {
 	if x.prop == "C15" {
 		x.checkC15(label)
 	}
+	if x.prop == "C12" {
+		x.checkC12w(label)
+	}
 	if x.prop == "C16" {
 		if x.c16Checked {
 			x.env.Count("probe.checked-after-resumed-recovery")
